@@ -17,6 +17,8 @@ def run(ctx):
     if tvh is None:
         ctx.violation("harness does not build against /repo", {"unchecked": "cargo build"}, concrete=False)
         return
+    from props import probe_compare as _pc
+    regression_lines(ctx, tvh, ["c14"], cut=_pc.cut_c14)
     rng = ctx.rng
     big = ctx.tier != "quick"
     g = docgen.Gen(rng)
